@@ -22,6 +22,8 @@ const (
 const (
 	// maxBulkStringLength is the maximum length of a bulk string (proto-max-bulk-len of Redis).
 	maxBulkStringLength = 512 * 1024 * 1024
+	// maxArrayDepth is the maximum nesting depth of arrays.
+	maxArrayDepth = 1024
 	// maxArraySize is the maximum number of elements of an array.
 	maxArraySize = 1024 * 1024
 	// bulkStringBufferSize is the initial buffer size to read a bulk string.
